@@ -108,35 +108,41 @@ Definition w_hyp_ok (td wbits : Z) : bool :=
   (0 <=? wbits) && (wbits <=? one_bits) && (if td >? 0 then wbits <? one_bits else wbits =? one_bits).
 
 (* ---------- model agreement ---------- *)
-Fixpoint model_steps (s : st) (d : list (list Z)) (steps : list (xop * xobs)) : bool :=
-  match steps with
-  | [] => true
-  | (XPick dr, o) :: r =>
-      let d' := apply_delta d (o_conns o) in
+(* one step of the model against one observation; None = the observation is not what the model does *)
+Definition model_step (s : st) (d : list (list Z)) (xo : xop * xobs) : option (st * list (list Z)) :=
+  let (x, o) := xo in
+  let d' := apply_delta d (o_conns o) in
+  match x with
+  | XPick dr =>
       match pickF s (pairs dr) with
       | Ok (i, id, used, s') =>
-          (o_err o =? 0) && (o_idx o =? Z.of_nat i) && (o_id o =? Z.of_nat id) &&
-          (o_used o =? 2 * Z.of_nat used) && (o_over o =? 0) && dump_ok s' d' o && model_steps s' d' r
-      | _ => false
+          if (o_err o =? 0) && (o_idx o =? Z.of_nat i) && (o_id o =? Z.of_nat id) &&
+             (o_used o =? 2 * Z.of_nat used) && (o_over o =? 0) && dump_ok s' d' o
+          then Some (s', d') else None
+      | _ => None
       end
-  | (XDone k code flags, o) :: r =>
-      let d' := apply_delta d (o_conns o) in
+  | XDone k code flags =>
       match nth_error (tokens s) k with
       | Some tk =>
           match nth_error (conns s) (t_conn tk) with
           | Some c =>
-              (o_conn o =? Z.of_nat (t_conn tk)) && (o_td o =? td_of (now s) c) && w_hyp_ok (o_td o) (o_wbits o) &&
-              match doneF s k (info_of code flags) (o_wbits o) with
-              | Ok s' => dump_ok s' d' o && model_steps s' d' r
-              | _ => false
-              end
-          | None => false
+              if (o_conn o =? Z.of_nat (t_conn tk)) && (o_td o =? td_of (now s) c) && w_hyp_ok (o_td o) (o_wbits o)
+              then match doneF s k (info_of code flags) (o_wbits o) with
+                   | Ok s' => if dump_ok s' d' o then Some (s', d') else None
+                   | _ => None
+                   end
+              else None
+          | None => None
           end
-      | None => false
+      | None => None
       end
-  | (XAdv dt, o) :: r =>
-      let d' := apply_delta d (o_conns o) in
-      let s' := advance s dt in dump_ok s' d' o && model_steps s' d' r
+  | XAdv dt => let s' := advance s dt in if dump_ok s' d' o then Some (s', d') else None
+  end.
+
+Fixpoint model_steps (s : st) (d : list (list Z)) (steps : list (xop * xobs)) : bool :=
+  match steps with
+  | [] => true
+  | xo :: r => match model_step s d xo with Some (s', d') => model_steps s' d' r | None => false end
   end.
 
 (* n = 0: base.NewErrPicker -- every Pick fails with ErrNoSubConnAvailable *)
@@ -274,24 +280,26 @@ Definition done_clauses (t : sst) (i : nat) (code : Z) (dump : list (list Z)) : 
   let target := match code_of code with None => 1000 | Some c => if acceptable c then 1000 else 0 end in
   (Z.min old target <=? new) && (new <=? Z.max old target).
 
-Fixpoint spec_steps (n : nat) (order : list nat) (t : sst) (steps : list (xop * xobs)) : bool :=
-  match steps with
-  | [] => true
-  | (XPick d, o) :: r =>
-      pick_clauses n order t d o &&
-      match n with
-      | O => spec_steps n order t r
-      | _ =>
-          let i := Z.to_nat (o_idx o) in
-          let dump := apply_delta (s_prev t) (o_conns o) in
-          let t' := mksst (s_now t) dump (s_L t ++ [mkentry i 0]) (s_tok t ++ [(i, s_now t)])
-                          (s_samples t) (s_fail t) (s_lastc t) (upd (Z.to_nat (o_id o)) (fun _ => s_now t) (s_lastp t)) in
-          dump_clauses n t' dump && spec_steps n order t' r
-      end
-  | (XDone k code _, o) :: r =>
+(* the clauses on one step; None = violated *)
+Definition spec_step (n : nat) (order : list nat) (t : sst) (xo : xop * xobs) : option sst :=
+  let (x, o) := xo in
+  match x with
+  | XPick d =>
+      if pick_clauses n order t d o then
+        match n with
+        | O => Some t
+        | _ =>
+            let i := Z.to_nat (o_idx o) in
+            let dump := apply_delta (s_prev t) (o_conns o) in
+            let t' := mksst (s_now t) dump (s_L t ++ [mkentry i 0]) (s_tok t ++ [(i, s_now t)])
+                            (s_samples t) (s_fail t) (s_lastc t) (upd (Z.to_nat (o_id o)) (fun _ => s_now t) (s_lastp t)) in
+            if dump_clauses n t' dump then Some t' else None
+        end
+      else None
+  | XDone k code _ =>
       (* whatever BytesSent / BytesReceived / Trailer / ServerLoad say: only the status decides the target *)
       match nth_error (s_tok t) k with
-      | None => false
+      | None => None
       | Some (i, start) =>
           let sample := Z.max 0 (s_now t - start) in
           let td := Z.max 0 (s_now t - nth i (s_lastc t) 0) in
@@ -302,13 +310,22 @@ Fixpoint spec_steps (n : nat) (order : list nat) (t : sst) (steps : list (xop * 
                           (upd i (fun l => sample :: l) (s_samples t))
                           (upd i (fun f => if failed then (if td >? 0 then f + 1 else f) else 0) (s_fail t))
                           (upd i (fun _ => s_now t) (s_lastc t)) (s_lastp t) in
-          done_clauses t i code dump && dump_clauses n t' dump && spec_steps n order t' r
+          if done_clauses t i code dump && dump_clauses n t' dump then Some t' else None
       end
-  | (XAdv dt, o) :: r =>
+  | XAdv dt =>
       let dump := apply_delta (s_prev t) (o_conns o) in
       let t' := mksst (s_now t + dt) dump (s_L t) (s_tok t) (s_samples t) (s_fail t) (s_lastc t) (s_lastp t) in
-      dump_clauses n t' dump && spec_steps n order t' r
+      if dump_clauses n t' dump then Some t' else None
   end.
+
+Fixpoint spec_steps (n : nat) (order : list nat) (t : sst) (steps : list (xop * xobs)) : bool :=
+  match steps with
+  | [] => true
+  | xo :: r => match spec_step n order t xo with Some t' => spec_steps n order t' r | None => false end
+  end.
+
+Definition sst0 (start : Z) (n : nat) : sst :=
+  mksst start (repeat init_row n) [] [] (repeat [] n) (repeat 0 n) (repeat 0 n) (repeat 0 n).
 
 Definition bspec_ok (c : bcase) : bool :=
   let n := c_n c in
@@ -316,9 +333,7 @@ Definition bspec_ok (c : bcase) : bool :=
   c_stat c &&
   (* every ready SubConn -- whatever Address it carries, shared or not -- is tracked by the picker, once *)
   perm_ok n (c_order c) &&
-  spec_steps n (c_order c)
-    (mksst (c_start c) (repeat init_row n) [] [] (repeat [] n) (repeat 0 n) (repeat 0 n) (repeat 0 n))
-    (c_steps c).
+  spec_steps n (c_order c) (sst0 (c_start c) n) (c_steps c).
 
 (* ================= client wiring cases (rpc/internal/client.go) ================= *)
 Inductive xcopt := XDial (tag : nat) | XNonBlock | XTimeout (ms : Z) | XCreds | XUnary | XStream.
@@ -374,6 +389,145 @@ Definition cspec_ok (c : ccase) : bool :=
   Nat.eqb (List.length (cc_counts c)) (cc_backends c) &&
   forallb (fun n => 0 <? n) (cc_counts c).
 
-Inductive case := CB (b : bcase) | CC (c : ccase).
-Definition model_ok (c : case) : bool := match c with CB b => bmodel_ok b | CC c => cmodel_ok c end.
-Definition spec_ok (c : case) : bool := match c with CB b => bspec_ok b | CC c => cspec_ok c end.
+(* ================= several pickers built by one picker builder ================= *)
+(* SubConn ids are global in these cases; a picker's ready set is a list of them.  After every step the driver
+   dumps EVERY live picker; the dumps are concatenated (Build order) into one list of rows
+   [lag; inflight; success; requests; last; pick; SubConn id] and delta-encoded against the previous step. *)
+Inductive mop :=
+| MBuild (ready : list nat) (order : list nat)   (* Build(ReadySCs = ready); observed p.conns order *)
+| MPick (p : nat) (draws : list Z)
+| MDone (p k : nat) (code flags : Z)
+| MAdv (dt : Z).
+
+Record mcase := mkmcase { m_start : Z; m_steps : list (mop * xobs) }.
+
+Definition id_col (row : list Z) : Z := nth 6 row (-1).
+Definition sizes_off (sizes : list nat) (p : nat) : nat := fold_right Nat.add 0%nat (firstn p sizes).
+Definition in_range (off n pos : nat) : bool := Nat.leb off pos && Nat.ltb pos (off + n).
+(* the part of a global delta that concerns the rows [off, off+n), re-based, without the id column *)
+Definition local_delta (off n : nat) (delta : list (nat * list Z)) : list (nat * list Z) :=
+  map (fun ir => ((fst ir - off)%nat, firstn 6 (snd ir))) (filter (fun ir => in_range off n (fst ir)) delta).
+Definition local_dump (off n : nat) (gd : list (list Z)) : list (list Z) := map (firstn 6) (firstn n (skipn off gd)).
+Definition with_conns (o : xobs) (dl : list (nat * list Z)) (id : Z) : xobs :=
+  mkobs (o_idx o) id (o_err o) (o_used o) (o_over o) (o_conn o) (o_td o) (o_wbits o) (o_now o) dl (o_stamp o).
+(* Build: rows at positions >= the old length are the new picker's, in order *)
+Definition new_rows (len : nat) (delta : list (nat * list Z)) : list (list Z) :=
+  map snd (filter (fun ir => Nat.leb len (fst ir)) delta).
+Definition old_delta (len : nat) (delta : list (nat * list Z)) : list (nat * list Z) :=
+  filter (fun ir => Nat.ltb (fst ir) len) delta.
+
+(* order is a permutation of ready (ready: distinct ids) *)
+Definition perm_list (ready order : list nat) : bool :=
+  Nat.eqb (List.length ready) (List.length order) &&
+  forallb (fun i => existsb (Nat.eqb i) order) ready && forallb (fun i => existsb (Nat.eqb i) ready) order.
+
+(* ---- model: the builder has no state; every Build makes an independent picker (None = error picker) ---- *)
+Definition dump7 (c : conn) : list Z := dump_conn c ++ [Z.of_nat (scid c)].
+Definition gdump (w : list (option st)) : list (list Z) :=
+  flat_map (fun os => match os with Some s => map dump7 (conns s) | None => [] end) w.
+Definition wsize (os : option st) : nat := match os with Some s => List.length (conns s) | None => 0%nat end.
+
+Fixpoint mmodel_steps (w : list (option st)) (t : Z) (gd : list (list Z)) (steps : list (mop * xobs)) : bool :=
+  match steps with
+  | [] => true
+  | (m, o) :: r =>
+      let sizes := map wsize w in
+      match m with
+      | MBuild ready order =>
+          let gd' := apply_delta gd (old_delta (List.length gd) (o_conns o)) ++ new_rows (List.length gd) (o_conns o) in
+          let w' := w ++ [build t order] in
+          perm_list ready order && list_eqb Zlist_eqb (gdump w') gd' && (o_now o =? t) && mmodel_steps w' t gd' r
+      | MAdv dt =>
+          let gd' := apply_delta gd (o_conns o) in
+          let w' := map (option_map (fun s => advance s dt)) w in
+          list_eqb Zlist_eqb (gdump w') gd' && (o_now o =? t + dt) && mmodel_steps w' (t + dt) gd' r
+      | MPick p _ | MDone p _ _ _ =>
+          let x := match m with MPick _ d => XPick d | MDone _ k c f => XDone k c f | _ => XAdv 0 end in
+          let gd' := apply_delta gd (o_conns o) in
+          let off := sizes_off sizes p in
+          match nth_error w p with
+          | Some (Some s) =>
+              let n := List.length (conns s) in
+              match model_step s (local_dump off n gd) (x, with_conns o (local_delta off n (o_conns o)) (o_id o)) with
+              | Some (s', _) =>
+                  let w' := set_nth p (Some s') w in
+                  list_eqb Zlist_eqb (gdump w') gd' && mmodel_steps w' t gd' r
+              | None => false
+              end
+          | Some None =>
+              (* base.NewErrPicker *)
+              match m with
+              | MPick _ _ => (o_err o =? 1) && (o_id o =? -1) && list_eqb Zlist_eqb (gdump w) gd' && mmodel_steps w t gd' r
+              | _ => false
+              end
+          | None => false
+          end
+      end
+  end.
+
+Definition mmodel_ok (c : mcase) : bool := mmodel_steps [] (m_start c) [] (m_steps c).
+
+(* ---- spec: every picker owns its connections ---- *)
+Record mpk := mkmpk { k_n : nat; k_ready : list nat; k_order : list nat; k_sst : sst }.
+
+Fixpoint index_of (x : nat) (l : list nat) : nat :=
+  match l with [] => 0%nat | a :: r => if Nat.eqb a x then 0%nat else S (index_of x r) end.
+(* position of a SubConn in the picker's ready set (= its size when the SubConn is not one of them) *)
+Definition local_id (ready : list nat) (gid : Z) : Z :=
+  if gid <? 0 then gid else Z.of_nat (index_of (Z.to_nat gid) ready).
+Definition is_nil {A} (l : list A) : bool := match l with [] => true | _ => false end.
+
+Fixpoint all_adv (dt : Z) (o : xobs) (ps : list mpk) : option (list mpk) :=
+  match ps with
+  | [] => Some []
+  | k :: r =>
+      match spec_step (k_n k) (k_order k) (k_sst k) (XAdv dt, with_conns o [] (-1)), all_adv dt o r with
+      | Some t', Some r' => Some (mkmpk (k_n k) (k_ready k) (k_order k) t' :: r')
+      | _, _ => None
+      end
+  end.
+
+Fixpoint mspec_steps (ps : list mpk) (t : Z) (gd : list (list Z)) (steps : list (mop * xobs)) : bool :=
+  match steps with
+  | [] => true
+  | (m, o) :: r =>
+      let sizes := map k_n ps in
+      match m with
+      | MBuild ready order =>
+          let len := List.length gd in
+          let n := List.length ready in
+          (* a Build does not disturb the pickers built before (they own their connections) ... *)
+          is_nil (old_delta len (o_conns o)) &&
+          (* ... and the new picker tracks exactly its own ready set, with fresh counters *)
+          perm_list ready order &&
+          list_eqb Zlist_eqb (new_rows len (o_conns o)) (map (fun id => init_row ++ [Z.of_nat id]) order) &&
+          mspec_steps (ps ++ [mkmpk n ready (map (fun g => index_of g ready) order) (sst0 t n)]) t
+                      (gd ++ new_rows len (o_conns o)) r
+      | MAdv dt =>
+          is_nil (o_conns o) &&
+          match all_adv dt o ps with Some ps' => mspec_steps ps' (t + dt) gd r | None => false end
+      | MPick p _ | MDone p _ _ _ =>
+          let x := match m with MPick _ d => XPick d | MDone _ k c f => XDone k c f | _ => XAdv 0 end in
+          match nth_error ps p with
+          | Some k =>
+              let off := sizes_off sizes p in
+              let n := k_n k in
+              (* a Pick / completion on this picker touches this picker's connections only, and never changes
+                 which SubConn a connection stands for *)
+              forallb (fun ir => in_range off n (fst ir) && (id_col (snd ir) =? id_col (nth (fst ir) gd []))) (o_conns o) &&
+              (* and on this picker all the clauses hold (a returned SubConn outside ITS ready set has local id n) *)
+              match spec_step n (k_order k) (k_sst k)
+                              (x, with_conns o (local_delta off n (o_conns o)) (local_id (k_ready k) (o_id o))) with
+              | Some t' => mspec_steps (set_nth p (mkmpk n (k_ready k) (k_order k) t') ps) t (apply_delta gd (o_conns o)) r
+              | None => false
+              end
+          | None => false
+          end
+      end
+  end.
+
+Definition mspec_ok (c : mcase) : bool := mspec_steps [] (m_start c) [] (m_steps c).
+
+Inductive case := CB (b : bcase) | CC (c : ccase) | CM (m : mcase).
+Definition model_ok (c : case) : bool := match c with CB b => bmodel_ok b | CC c => cmodel_ok c | CM m => mmodel_ok m end.
+Definition spec_ok (c : case) : bool := match c with CB b => bspec_ok b | CC c => cspec_ok c | CM m => mspec_ok m end.
